@@ -111,6 +111,7 @@ Section Compose.
   Context {P C : Type}.
   Variable S : smachine P C.
   Variable into : bool.
+  Variable latching : bool.
   Variable spec : bytes -> list (nres P).
   Variable G : bytes -> Prop.
   Variable R : C -> bytes -> nat -> Prop.
@@ -195,7 +196,7 @@ Section Compose.
     - unfold finish_call. apply idle_exit_inv; auto; congruence.
   Qed.
 
-  Lemma erecv_packet_inv : forall es, EInv es -> G (returned (sk es)) -> EInv (erecv_packet S into es).
+  Lemma erecv_packet_inv : forall es, EInv es -> G (returned (sk es)) -> EInv (erecv_packet S into latching es).
   Proof.
     intros es H HG. unfold erecv_packet. destruct (einrecv es) eqn:Hin; [exact H|].
     destruct (ei_idle _ H Hin) as (Hp & HR).
@@ -216,7 +217,7 @@ Section Compose.
     - apply (Hevent _ eq_refl); [congruence | exact Hd].
     - apply (Hevent _ eq_refl); [congruence | exact Hd].
     - destruct Hd as (Hk & HD).
-      destruct (elatch es).
+      destruct (latching && elatch es).
       + unfold finish_call. apply idle_exit_inv; try assumption; try congruence.
         * exact (ei_inv _ H). * exact (ei_inv2 _ H). * exact (ei_events _ H).
       + apply ehead_inv; try assumption.
@@ -345,7 +346,7 @@ Section Compose.
       (apply einv_sock_change; [exact H | apply HI'; discriminate | exact HI2' | exact Htp | exact Hr]).
   Qed.
 
-  Lemma estep_inv : forall es l, EInv es -> G (returned (sk (estep S into es l))) -> EInv (estep S into es l).
+  Lemma estep_inv : forall es l, EInv es -> G (returned (sk (estep S into latching es l))) -> EInv (estep S into latching es l).
   Proof.
     intros es l H HG. destruct l as [|l].
     - simpl in *. apply erecv_packet_inv; [exact H|].
@@ -360,7 +361,7 @@ Section Compose.
         destruct ob2 as [| |r2|]; simpl; try (subst s2; auto; fail).
         - destruct Hcc as (_ & Hr2). rewrite Hr2. auto.
         - subst s2. destruct r2 as [b2| | |]; simpl; auto. destruct b2; simpl; auto. }
-      destruct r; simpl; auto. destruct (elatch es); simpl; auto.
+      destruct r; simpl; auto. destruct (latching && elatch es); simpl; auto.
     - destruct l as [k|k|b| |exc| | |];
         [ exact H | exact H | exact (eenv_inv es (LData b) H) | exact (eenv_inv es LEof H)
         | exact (eenv_inv es (LLost exc) H) | exact (eenv_inv es LCancel H)
@@ -368,7 +369,7 @@ Section Compose.
   Qed.
 
   (* delivered only grows *)
-  Lemma estep_delivered : forall es l, exists x, delivered (sk (estep S into es l)) = delivered (sk es) ++ x.
+  Lemma estep_delivered : forall es l, exists x, delivered (sk (estep S into latching es l)) = delivered (sk es) ++ x.
   Proof.
     intros es l.
     assert (Hstep : forall l0, exists x, delivered (fst (step true (sk es) l0)) = delivered (sk es) ++ x).
@@ -384,7 +385,7 @@ Section Compose.
     - simpl. unfold erecv_packet. destruct (einrecv es); [exists []; rewrite app_nil_r; reflexivity|].
       destruct (sdrain S (ec es)) as [c' r].
       destruct r; simpl; try (exists []; rewrite app_nil_r; reflexivity).
-      destruct (elatch es); simpl; [exists []; rewrite app_nil_r; reflexivity | apply Hhead].
+      destruct (latching && elatch es); simpl; [exists []; rewrite app_nil_r; reflexivity | apply Hhead].
     - destruct l as [k|k|b| |exc| | |];
         [ exists []; rewrite app_nil_r; reflexivity | exists []; rewrite app_nil_r; reflexivity
         | exact (Hstep (LData b)) | exact (Hstep LEof) | exact (Hstep (LLost exc)) | exact (Hstep LCancel)
@@ -401,10 +402,10 @@ Section Compose.
       exists (x ++ y). rewrite Hy, Hx, app_assoc. reflexivity.
   Qed.
 
-  Lemma erun_delivered : forall ls es, exists x, delivered (sk (erun S into es ls)) = delivered (sk es) ++ x.
+  Lemma erun_delivered : forall ls es, exists x, delivered (sk (erun S into latching es ls)) = delivered (sk es) ++ x.
   Proof.
     induction ls as [|l ls IH]; intro es; simpl; [exists []; rewrite app_nil_r; reflexivity|].
-    destruct (IH (estep S into es l)) as (y & Hy). destruct (estep_delivered es l) as (x & Hx).
+    destruct (IH (estep S into latching es l)) as (y & Hy). destruct (estep_delivered es l) as (x & Hx).
     exists (x ++ y). rewrite Hy, Hx, app_assoc. reflexivity.
   Qed.
 
@@ -415,14 +416,14 @@ Section Compose.
     rewrite <- Hn in HG. exact (okr_prefix _ _ _ _ _ OK _ _ HG).
   Qed.
 
-  Lemma erun_inv : forall ls es, EInv es -> G (delivered (sk (erun S into es ls))) -> EInv (erun S into es ls).
+  Lemma erun_inv : forall ls es, EInv es -> G (delivered (sk (erun S into latching es ls))) -> EInv (erun S into latching es ls).
   Proof.
     induction ls as [|l ls IH]; intros es H HG; [exact H|]. simpl in *.
     apply IH; [|exact HG].
-    destruct (erun_delivered ls (estep S into es l)) as (x & Hx). rewrite Hx in HG.
+    destruct (erun_delivered ls (estep S into latching es l)) as (x & Hx). rewrite Hx in HG.
     pose proof (okr_prefix _ _ _ _ _ OK _ _ HG) as HG1.
     (* Inv of the protocol part does not need G *)
-    assert (HI1 : Inv true (sk (estep S into es l))).
+    assert (HI1 : Inv true (sk (estep S into latching es l))).
     { clear - H OK D_sroom. destruct l as [|l].
       - simpl. unfold erecv_packet. destruct (einrecv es); [exact (ei_inv _ H)|].
         destruct (sdrain S (ec es)) as [c' r].
@@ -432,7 +433,7 @@ Section Compose.
           destruct (call s (if into then OInto room else ORecv room)) as [s2 ob2]. simpl in Hc.
           destruct ob2 as [| |r2|]; simpl; auto. destruct r2 as [b2| | |]; simpl; auto. destruct b2; simpl; auto. }
         destruct r; simpl; try exact (ei_inv _ H).
-        destruct (elatch es); simpl; [exact (ei_inv _ H) | apply Hh; exact (ei_inv _ H)].
+        destruct (latching && elatch es); simpl; [exact (ei_inv _ H) | apply Hh; exact (ei_inv _ H)].
       - pose proof (fun l0 => step_inv true (sk es) l0 (ei_inv _ H) (fun Hf => False_ind _ (Bool.diff_true_false Hf))) as Hst.
         destruct l as [k|k|b| |exc| | |];
           [ exact (ei_inv _ H) | exact (ei_inv _ H) | exact (Hst (LData b)) | exact (Hst LEof)
@@ -462,7 +463,7 @@ Section Compose.
   (* the endpoint corollary *)
   Lemma recv_packet_no_loss_proof : forall c0 ls,
     R c0 [] 0 ->
-    let es := erun S into (einit c0) ls in
+    let es := erun S into latching (einit c0) ls in
     G (delivered (sk es)) ->
     (exists rest, spec (delivered (sk es)) = events es ++ rest) /\
     (einrecv es = false -> R (ec es) (returned (sk es)) (length (events es))) /\
